@@ -8,7 +8,18 @@ SCHEMES = ["CJJ14.PiBas", "CJJ14.PiPack", "CJJ14.PiPtr", "CJJ14.Pi2Lev", "CT14.P
 # schemes whose identifiers must stay concrete in SX (they are used as dict keys = hashed = realised)
 CONCRETE_IDS = {"CGKO06.SSE2"}
 
-KEYWORDS = [b"kw", b"kwx", b"b", b"a longer keyword 0123456789abcdef"]
+KEYWORDS = [b"kw", b"kwx", b"b", b"a longer keyword 0123456789abcdef", b"k5", b"kw6", b"7", b"x8", b"y9"]
+
+
+def keywords_for(cfg):
+    """the fixed keyword universe, cut to the scheme's keyword-length limit where it has one"""
+    lim = cfg.get("param_l") if "param_s" in cfg or "param_max_file_size" in cfg else None
+    out = []
+    for k in KEYWORDS:
+        k = k[:lim] if lim else k
+        if k not in out:
+            out.append(k)
+    return out
 
 
 class ListSet:
@@ -93,7 +104,7 @@ def make_db(P, S, scheme, cfg, lens, keywords=None):
     """database with len(lens) keywords; identifier bytes symbolic (concrete for CONCRETE_IDS), pairwise
     distinct within a list (assumed, not forked)"""
     size = id_size(cfg)
-    kws = keywords or KEYWORDS
+    kws = keywords or keywords_for(cfg)
     db = {}
     ctr = 0
     for ki, n in enumerate(lens):
